@@ -15,5 +15,7 @@ AlphaErrors == Both({"empty", "badconst"}) \cup Plain({"blank", "field", "const"
 \* everything
 AlphaAll == Both({"empty", "field", "const", "pad", "marker", "badconst", "sealed", "print"}) \cup
             Plain({"blank", "union", "deprecated", "extent", "assert", "offq", "assertfalse", "undef", "syntax", "mlprint"})
+\* identifier scope: constants of the same name in the request and the response part
+AlphaScope == Plain({"empty", "kdef", "kuse", "kprint", "marker", "sealed"})
 AfterFail == { L("empty", FALSE), L("field", FALSE), L("syntax", FALSE) }
 =============================================================================
